@@ -55,6 +55,33 @@ def yields_on_paths(at, tf, entry, limit=64):
     return out
 
 
+def constant_substitution(repo, chk, rule):
+    """A named constant used in an expression is replaced by a copy of its value placed at the use (PrimitiveValue.at): the
+    copy has the class, the value and the type of the constant - the overload `write(K)` resolves to is the one of K's type.
+    Interpreted for every primitive value class."""
+    from ..consteval import Interp
+    it = Interp(repo)
+    ns = it.load('hidc/ast/__init__.py')
+    lex = it.load('hidc/lexer/__init__.py')
+    a = lex['Span'](lex['Cursor'](0, 0), lex['Cursor'](0, 1))
+    b = lex['Span'](lex['Cursor'](3, 4), lex['Cursor'](3, 9))
+    vals = [('int', ns['IntValue'](5, a)), ('int beyond a byte', ns['IntValue'](300, a)), ('char int', ns['IntValue'](65, a, is_char=True)),
+            ('byte', ns['ByteValue'](44, a)), ('char byte', ns['ByteValue'](44, a, is_char=True)), ('bool', ns['BoolValue'](True, a)),
+            ('string', ns['StringValue'](b'x,y', a))]
+    n = 0
+    for label, v in vals:
+        n += 1
+        try:
+            r = v.at(b)
+            ok = type(r) is type(v) and r.data == v.data and r.type == v.type and r.span == b and \
+                getattr(r, 'is_char', None) == getattr(v, 'is_char', None)
+            detail = f'{type(v).__name__}({v.data!r}) of type {v.type} becomes {type(r).__name__}({r.data!r}) of type {r.type}'
+        except Exception as e:      # noqa: BLE001
+            ok, detail = False, f'{type(e).__name__}: {e}'
+        chk.expect(ok, rule, f'PrimitiveValue.at[{label}]', detail, 'hidc/ast/expressions.py')
+    return n
+
+
 def run(repo, chk):
     chk.explanation = (
         'Decided structurally: the dispatch from write/writeln overloads to inlined code or library routines is '
@@ -179,6 +206,77 @@ def run(repo, chk):
             chk.expect(ok, 'C17.D3', f'eval_func_call[writeln, args={bool(conds.get("len(args) != 0"))}]',
                        f'writeln must be write(args) followed by exactly one newline: {[e.short() for e in em]}', GEN)
     chk.floor('inline write paths', n3, 3)
+    # ... decided for every writeln stub and concrete argument tuples (also the corner values: the empty string, zero): every
+    # path of eval_func_call whose decisions on name / parameter types / arguments hold for that call emits exactly one
+    # newline, as its last output
+    from ..consteval import Env as _Env
+    ns_g = gf.module_ns()
+    it_g = repo.__dict__['_gen_ns']['it']
+    prog_ns = it_g.load('hidc/ast/program.py')
+    lexm = it_g.load('hidc/lexer/__init__.py')
+    sp_ = lexm['Span'](lexm['Cursor'](0, 0), lexm['Cursor'](0, 1))
+    A_ = ns_g['ast']
+    DT_ = ns_g['DataType']
+
+    def examples(t):
+        if t == DT_.STRING:
+            return [A_.StringValue(b'', sp_), A_.StringValue(b'ab', sp_)]
+        if t == DT_.INT:
+            return [A_.IntValue(0, sp_), A_.IntValue(7, sp_)]
+        if t == DT_.BOOL:
+            return [A_.BoolValue(False, sp_), A_.BoolValue(True, sp_)]
+        if t == DT_.BYTE:
+            return [A_.ByteValue(0, sp_), A_.ByteValue(65, sp_)]
+        return [A_.VariableLookup(A_.Variable('v', t, False), sp_)]
+    n_wl = 0
+    for stub in prog_ns['builtin_stubs']:
+        if getattr(stub.name, 'base_name', None) != 'writeln' or getattr(stub.name.flavor, 'name', 'NONE') != 'NONE':
+            continue
+        import itertools as _it
+        for args in _it.product(*[examples(t) for t in stub.param_types]):
+            bad = None
+            n_feasible = 0
+            for pth in gf.paths('eval_func_call'):
+                ev = pth.events
+                feasible = True
+                for idx, e in enumerate(ev):
+                    if e.kind != 'cond' or e.node is None:
+                        continue
+                    if 'BuiltinStub' in e.text and 'isinstance' in e.text:
+                        # the call is one of a builtin stub: the lookup in the environment yields the stub
+                        if not e.truth:
+                            feasible = False
+                            break
+                        continue
+                    try:
+                        node = ast.parse(_efg.expand(ev, idx, e.node, keep=('name', 'abstract_params', 'args')), mode='eval').body
+                    except SyntaxError:
+                        continue
+                    names = {n.id for n in ast.walk(node) if isinstance(n, ast.Name)}
+                    if not names & {'name', 'abstract_params', 'args'} or 'self' in names or \
+                            any(isinstance(n, (ast.Yield, ast.YieldFrom, ast.NamedExpr)) for n in ast.walk(node)):
+                        continue
+                    if not names - {'name', 'abstract_params', 'args'} <= set(ns_g) | set(dir(__import__('builtins'))):
+                        continue
+                    try:
+                        v = bool(it_g.eval(node, _Env(ns_g, {'name': stub.name, 'abstract_params': stub.param_types, 'args': tuple(args)})))
+                    except Exception:      # noqa: BLE001
+                        continue
+                    if v != e.truth:
+                        feasible = False
+                        break
+                if not feasible or pth.outcome == 'raise':
+                    continue
+                n_feasible += 1
+                em = [e for e in ev if e.kind == 'emit' and e.ctor != 'asm.Metadata']
+                ys = [e.short() for e in em if e.ctor == 'asm.Yield']
+                if not (ys == ["asm.Yield(asm.IntLiteral(ord('\\n'), is_char=True))"] and em and em[-1].ctor == 'asm.Yield'):
+                    bad = bad or f'a path feasible for this call emits {ys or "no output"} (line {ev[-1].line if ev else "?"})'
+            n_wl += 1
+            label = ', '.join(f'{type(a).__name__}({getattr(a, "data", "")!r})' for a in args)
+            chk.expect(bad is None and n_feasible > 0, 'C17.D3', f'eval_func_call[writeln({label})]',
+                       bad or ('no feasible path' if not n_feasible else 'exactly one newline, last'), GEN)
+    chk.floor('writeln calls decided', n_wl, 6)
 
     # ---------------- D4 --------------------------------------------------------------------
     entries = [v for v in want.values()] + ['stack_overflow', 'division_by_zero', 'out_of_bounds', 'nonlocal_preempt']
@@ -301,4 +399,5 @@ def run(repo, chk):
                        'string table length prefix, string-to-byte-array conversion (shared with C13.B0/B2)')
     from . import c13
     c13.run(repo, Remap(chk, {'C13.B0': 'C17.D7', 'C13.B2': 'C17.D7', 'C13.B3': lambda c: 'C17.D7' if c.startswith('make_global') else None}))
+    constant_substitution(repo, chk, 'C17.D1')
     chk.not_decided = ['the digits printed for every representable integer (VM arithmetic)']
